@@ -34,7 +34,7 @@ Proof. exact inv_step_b. Qed.
 Print Assumptions C15_inv_step.
 
 (* every finite sequence over create / add_uid (text or image, any attribute list) / recertify / third-party certify / revoke uid /
-   add_subkey / revoke subkey / revoke key / add revoker / del_uid / protect / unlock / lock / copy / export+import / publish the public
+   third-party direct-key certify / add_subkey / revoke subkey / revoke key / add revoker / del_uid / protect / unlock / lock / copy / export+import / publish the public
    twin, in any order, interleaved across any number of keys *)
 Theorem C15_inv_reachable : forall ops, inv_world (run ops) = true.
 Proof. exact inv_reachable_b. Qed.
@@ -63,12 +63,12 @@ Definition h_ex : list op :=
   [OCreate 0; OCreate 1; OAddUid 0 true [1] P1 true 1; OAddUid 1 true [5] P1 false 1; OAddUid 0 false [4] P2 false 2;
    OAddUid 0 true [2] P2 true 2; ORecertify 0 true [1] P2 false 2; ORecertify 0 true [1] P1 true 2; OCertify 1 0 true [1] (Some false) 2;
    OCertify 1 0 true [1] (Some true) 3; OAddSubkey 0 10 true 2 3; OAddSubkey 0 11 false 12 3; ORevokeSubkey 0 10 4; OAddRevoker 0 1 4;
-   ORevokeUid 0 true [2] 4; OPublish 0; OCertify 1 2 true [1] None 5; ODelUid 0 [2]; OProtect 0; ORevokeKey 0 6; OUnlock 0; ORevokeKey 0 6;
+   ORevokeUid 0 true [2] 4; OPublish 0; OCertify 1 2 true [1] None 5; OCertifyKey 1 0 (Some false) 5; OCertifyKey 1 2 (Some true) 5; ODelUid 0 [2]; OProtect 0; ORevokeKey 0 6; OUnlock 0; ORevokeKey 0 6;
    OCopy 0; OLock 0; OReimport 0; OReimport 2; OCopy 2].
 Example C15_history_example :
   length (run h_ex) = 3%nat /\ inv_world (run h_ex) = true
   /\ map (fun ob => (length (p_uids (o_key ob)), length (p_subs (o_key ob)), length (p_sigs (o_key ob)), o_lock ob)) (run h_ex)
-     = [(2%nat, 2%nat, 2%nat, 2); (1%nat, 0%nat, 0%nat, 0); (3%nat, 2%nat, 1%nat, 0)].
+     = [(2%nat, 2%nat, 2%nat, 2); (1%nat, 0%nat, 0%nat, 0); (3%nat, 2%nat, 2%nat, 0)].
 Proof. vm_compute. repeat split. Qed.
 
 (* ------------------------------------------------------------------ the effective self-signature *)
